@@ -230,6 +230,7 @@ class AliasDir:
         from lxml import etree
         from replay_unpack.core.entity_def.data_types import Alias
         lines = ['<root>']
+        ext_lines = []
         n_alias = 0
         names = {}
         # alias names may coincide with built-in type names (the alias table is consulted first); only names the generator never
@@ -251,10 +252,18 @@ class AliasDir:
                             lines.append('<%s> %s </%s>' % (nm2, nm, nm2))
                             nm = nm2
                         names[id(child)] = nm
-            lines.append('<T%d> %s </T%d>' % (i, gt.type_xml_body(t, names), i))
+            if rng is not None and i % 5 == 3:
+                # declared in alias.xml as something else and re-declared in alias_ext.xml: the extension file overrides
+                lines.append('<T%d> %s </T%d>' % (i, 'UINT16' if t.get('k') != 'int' else 'STRING', i))
+                ext_lines.append('<T%d> %s </T%d>' % (i, gt.type_xml_body(t, names), i))
+            else:
+                lines.append('<T%d> %s </T%d>' % (i, gt.type_xml_body(t, names), i))
         lines.append('</root>')
         with open(os.path.join(self.dir, 'scripts', 'entity_defs', 'alias.xml'), 'w') as f:
             f.write('\n'.join(lines))
+        if ext_lines:
+            with open(os.path.join(self.dir, 'scripts', 'entity_defs', 'alias_ext.xml'), 'w') as f:
+                f.write('<root>\n' + '\n'.join(ext_lines) + '\n</root>')
         alias = Alias(self.dir)
         objs = []
         for i in range(len(trees)):
